@@ -61,12 +61,15 @@ LitOk(l) == l.k = "lstr" => ((l.full => l.prefix) /\ (l.len = 0 => (~l.full /\ ~
 CompileLit(sc, t, l) ==
     LET u == Unalias(sc, t) IN
     CASE u.k = "nullable" -> "rej"                                   \* "A default cannot be set for a nullable type"
-      [] u.k = "int"   -> IF l.k = "lint" /\ ILo(u) <= l.r /\ l.r <= IHi(u) THEN "acc" ELSE "rej"
+      [] u.k = "int"   -> IF l.k = "lint" /\ ILo(u) <= l.r /\ l.r <= IHi(u) THEN "acc"
+                          ELSE IF l.k = "lbool" THEN "unspec"          \* whether a Boolean literal is a number is not documented
+                          ELSE "rej"
       [] u.k = "float" -> IF l.k = "lfloat" THEN (IF FLo(u) <= l.r /\ l.r <= FHi(u) THEN "acc" ELSE "rej")
                           ELSE IF l.k = "lint" THEN
                                (IF IntToFloatDefined(l.r)
                                 THEN (IF FLo(u) <= IntToFloat(l.r) /\ IntToFloat(l.r) <= FHi(u) THEN "acc" ELSE "rej")
                                 ELSE "unspec")
+                          ELSE IF l.k = "lbool" THEN "unspec"
                           ELSE "rej"
       [] u.k = "str"   -> IF u.pat = "p0" THEN (IF l.k \in {"lstr", "lts"} THEN "unspec" ELSE "rej")
                           ELSE IF l.k = "lstr" /\ LenOk(u, l.len) /\ (u.pat = "" \/ l.full) THEN "acc"
@@ -79,7 +82,8 @@ CompileLit(sc, t, l) ==
            THEN IF l.k = "ltag" /\ l.n \in TagNames(sc, u.n) /\ l.n # "other"
                    /\ Unalias(sc, TagByName(sc, u.n, l.n).t).k = "void" THEN "acc" ELSE "rej"
            ELSE "rej"                                                 \* struct-typed fields have no default
-      [] OTHER -> "rej"                                               \* Bytes, List, Map
+      [] u.k = "bytes" -> IF l.k \in {"lstr", "lts"} THEN "unspec" ELSE "rej"   \* a text default for Bytes: not documented
+      [] OTHER -> "rej"                                               \* List, Map
 \* the value an unset field with this default reads
 ValueOf(sc, t, l) ==
     LET u == Unalias(sc, t) IN
